@@ -75,7 +75,8 @@ type store struct {
 }
 
 func (st *store) open() error {
-	db, err := shed.NewDB(st.dir, nil)
+	// default driver with small buffers (a fresh database per scenario: the 32 MiB defaults dominate the run time)
+	db, err := shed.NewDB(st.dir, &shed.Options{Driver: `leveldb:{"WriteBuffer":262144,"BlockCacheCapacity":262144}`})
 	if err != nil {
 		return err
 	}
@@ -96,6 +97,14 @@ func (st *store) open() error {
 	}
 	st.batch = db.NewBatch()
 	return nil
+}
+
+// tmpBase: a memory-backed directory if there is one (every Put is a synchronous write).
+func tmpBase() string {
+	if fi, err := os.Stat("/dev/shm"); err == nil && fi.IsDir() {
+		return "/dev/shm"
+	}
+	return ""
 }
 
 func item(k []byte, v int) shed.Item { return shed.Item{Address: k, Data: []byte{byte(v)}} }
@@ -156,7 +165,7 @@ func run(sc kit.Scenario, out *kit.Out) error {
 	impl := "leveldb-mem"
 	for _, op := range sc.Ops {
 		if kit.Str(op, "op") == "reopen" {
-			dir, err := ioutil.TempDir("", "verif-shed")
+			dir, err := ioutil.TempDir(tmpBase(), "verif-shed")
 			if err != nil {
 				return err
 			}
